@@ -33,16 +33,28 @@ class Pool:
         self._byid = {}
 
     def buf_id(self, arr):
-        b = base_of(np.asarray(arr))
-        k = id(b)
+        """arr: ndarray (tracked through its ultimate base) or Quantity (tracked with its unit)"""
+        from common import u
+        if isinstance(arr, u.Quantity):
+            k, b = id(arr), arr
+        else:
+            b = base_of(np.asarray(arr))
+            k = id(b)
         if k not in self._byid:
             self._byid[k] = len(self.bufs) + 1
             self.bufs[self._byid[k]] = b
         return self._byid[k]
 
+    @staticmethod
+    def _hash_one(b):
+        from common import u
+        if isinstance(b, u.Quantity):
+            v = np.asarray(b.value)
+            return _h(np.ascontiguousarray(v).tobytes() + str((v.shape, v.dtype, str(b.unit), type(b).__name__)).encode())
+        return _h(np.ascontiguousarray(b).tobytes() + str((b.shape, b.dtype, b.strides)).encode())
+
     def hashes(self):
-        return [{"b": i, "h": _h(np.ascontiguousarray(b).tobytes() + str((b.shape, b.dtype, b.strides)).encode())}
-                for i, b in sorted(self.bufs.items())]
+        return [{"b": i, "h": self._hash_one(b)} for i, b in sorted(self.bufs.items())]
 
     def metas(self):
         import common
@@ -67,9 +79,14 @@ def make_root(root, rnd):
         base = (rs.standard_normal(big) + 1j * rs.standard_normal(big)).astype(rnd.choice(["complex128", "complex64"]))
     else:
         base = np.abs(rs.standard_normal(big)).astype(rnd.choice(["float64", "float32"])) + 1
+    if rnd.random() < 0.35:
+        # non-finite samples are data like any other: nothing may "clean" the caller's buffer
+        base[rnd.randrange(2 * n)] = np.nan
+        base[rnd.randrange(2 * n)] = np.inf
+        base[rnd.randrange(2 * n)] = -np.inf
     z = base[:n].copy() if contig else base[::2]
     kw = dict(sample_rate=1 * u.MHz, start_time=Time("2022-02-02T02:02:02", precision=9),
-              center_freq=400 * u.MHz, meta={"a": [1, {"b": 2}]})
+              center_freq=400 * u.MHz, meta=rnd.choice([{"a": [1, {"b": 2}]}, {}, None, {"x": 1}]))
     if kind in ("st", "in"):
         kw["chan_bw"] = 1 * u.MHz
     if kind == "dp":
@@ -97,7 +114,7 @@ def real_ops():
 
     def fshift(z, P):
         q = np.array([0.1, -0.2])[: z.shape[1]] * u.MHz
-        P.buf_id(q.value)
+        P.buf_id(q)
         return pb.freq_shift(z, q)
 
     def chirp(z, P):
@@ -192,6 +209,15 @@ def replay_behaviour(case, rnd, eid0):
         events.append({"id": eid0 + len(events), "ev": "call", "op": h["op"], "argbuf": zb, "pre": pre, "post": post,
                        "mpre": mpre, "mpost": mpost, "raised": raised or "",
                        "case": {"root": case["root"], "hist": case["hist"][:step + 1]}})
+        if r is not None and r is not z and isinstance(getattr(r, "meta", None), dict):
+            # a user-level write to the result's meta must not reach any input (like()/setter copy the dict)
+            before = P.metas()
+            r.meta["__verif_probe__"] = step
+            after = P.metas()
+            del r.meta["__verif_probe__"]
+            events.append({"id": eid0 + len(events), "ev": "call", "op": "api_call", "argbuf": 0, "pre": [], "post": [],
+                           "mpre": before, "mpost": after, "raised": "",
+                           "case": {"root": case["root"], "hist": case["hist"][:step + 1], "probe": "result.meta write"}})
         if r is not None and r is not z and hasattr(r, "data") and len(P.sigs) < 6:
             d = r.data
             if isinstance(d, da.Array):
@@ -222,6 +248,10 @@ def arg_events(rnd, eid0):
                 if name == "coherent_dd":
                     arr = np.asarray(pb.DM(0.02).chirp_from_signal(z)).copy()
                 P.buf_id(arr)
+                qarg = None
+                if name == "freq_shift":
+                    qarg = arr * rnd.choice([u.MHz, u.kHz, u.Hz, 1 / u.us])
+                    P.buf_id(qarg)
                 pre, mpre = P.hashes(), P.metas()
                 try:
                     if name == "time_shift":
@@ -229,7 +259,7 @@ def arg_events(rnd, eid0):
                     elif name == "time_shift_crop":
                         pb.time_shift(z, arr, crop=True)
                     elif name == "freq_shift":
-                        pb.freq_shift(z, arr * u.MHz)
+                        pb.freq_shift(z, qarg)
                     else:
                         pb.coherent_dedispersion(z, pb.DM(0.02), chirp=arr)
                     raised = ""
